@@ -462,6 +462,13 @@ def witness(failure, ctx):
     for opc in (43, 50, 52, 251, 81, 79, 128, 0x10080, 0xffff, 0):
         m = seeds.HEADER + seeds.inst(21, 4, 32, 1) + seeds.inst(52, 4, 13, opc, 8, 12, 1, 2)
         cases.append(("specop%d" % opc, seeds.to_hex_bytes(m)))
+    # C01: crafted modules in layout order whose instructions must come back word-identical (or be rejected):
+    # strings with non-UTF-8 bytes, with every length mod 4, 64-bit literals, all sections populated
+    for bad in ([0xff, 0x41, 0, 0], [0x41, 0xc3, 0x28, 0], [0x41, 0x42, 0x43, 0x44, 0xe2, 0x82, 0, 0], [0x80, 0, 0, 0]):
+        ws = [int.from_bytes(bytes(bad[i:i + 4]), "little") for i in range(0, len(bad), 4)]
+        cases.append(("c01-nonutf8", seeds.to_hex_bytes(seeds.HEADER + seeds.inst(5, 1, *ws) + seeds.inst(19, 2))))
+    for n in range(0, 9):
+        cases.append(("c01-strlen%d" % n, seeds.to_hex_bytes(seeds.HEADER + seeds.inst(7, 1, *seeds.s("x" * n)) + seeds.inst(5, 1, *seeds.s("y" * n)))))
     p, err = ctx["vreplay"](["parse-batch"], stdin="\n".join(h for _, h in cases) + "\n", timeout=900)
     if p is None or p.returncode != 0:
         return {"found": False, "error": err or p.stderr[-300:]}
@@ -476,6 +483,8 @@ def witness(failure, ctx):
                 bad = "accepted input does not re-assemble to a fixed point"
             elif name == "seed" and o.split("words=")[1] != seedwords:
                 bad = "seed module (layout order) does not come back word-identical"
+            elif (name == "seed" or name.startswith("c01-")) and " same=1" not in o:
+                bad = "accepted input is not reproduced instruction for instruction (C01)"
         elif name == "seed":
             bad = "the well-formed seed module is rejected: " + o
         elif o.startswith("Err"):
